@@ -71,7 +71,7 @@ def printers(chk, env, kind, K, nmax, tag):
             key = "%s::%s n=%d%s" % (K.adt, mname, n, tag)
             b = K.method(mname)
             try:
-                it = env.interp()
+                it = env.interp(max_steps=100000)      # the printers need < 3 000 steps today
                 st = State()
                 p = K.place(st, K.mk(st, n, sym_words(n, "a")))
                 outs = it.call_body(b, [p], st, K.env(n))
@@ -94,7 +94,7 @@ def printers(chk, env, kind, K, nmax, tag):
         for n in (0, 3, 6, 7, 9, 12) if chk.tier == "quick" else range(0, nmax + 1):
             key = "<%s as %s>::fmt n=%d%s" % (K.adt, trp.split("::")[-1], n, tag)
             try:
-                it = env.interp()
+                it = env.interp(max_steps=100000)      # the printers need < 3 000 steps today
                 st = State()
                 p = K.place(st, K.mk(st, n, sym_words(n, "a")))
                 fc = new_cell()
@@ -381,7 +381,7 @@ def text_windows(chk, env, kind, K):
                 names = ["a[%d]" % p_ for p_ in pos]
                 space = Space(names)
                 it = env.interp(max_paths=8192)
-                it.max_steps = 50000000
+                it.max_steps = 100000     # needs < 100 today (the std summaries do the work)
                 it.prune = True
                 it.cmp_split = True
                 it.split_all = True
